@@ -283,6 +283,8 @@ Embed(m, c1, e2) ==
        \* a logical operator directly under another one (expr_sema.go types these with narrowing)
     [] m = "andor" -> Logic("||", Paren(Logic("&&", e1, X)), X)
     [] m = "orand" -> Logic("&&", Paren(Logic("||", X, e1)), X)
+       \* an object filter on a trusted chain just before e (the pending-filter flag must not leak)
+    [] m = "fothen" -> Logic("||", N("filter", "", "", <<X>>), e1)
     [] m = "paren" -> Paren(e1)
     [] m = "pmid" -> ApplySeg(c1[Len(c1)], Paren(Build(c1, Len(c1) - 1, e2)), e2)
     [] m = "notpar" -> N("not", "", "!", <<Paren(Cmp(e1, X))>>)
